@@ -45,7 +45,9 @@ static const char *DB = "/vfs/db";
 
 static kcfg_t cfg;
 static int do_persistent = 0, do_depth2 = 0;
-static int prop_mode = 12;   /* 12, 1, 4, 9, 13, 17 */
+static int prop_mode = 12;   /* 12, 1, 2, 4, 9, 13, 17 */
+#define SHORT_MODE (prop_mode == 1 || prop_mode == 2)   /* legal short transfers only, nothing fails */
+static int judge_sync_only;
 static vcall_t *calllog;
 static long ncalllog;
 static uint64_t n_hist, n_sites, n_runs, n_reopens, n_fired, n_notfired, n_err_status_ops, n_open_failed_in_run;
@@ -78,6 +80,7 @@ typedef struct frun_s {
   int learn;              /* fault-free run with the call log on (same code path as the faulted runs) */
   long ncalls_hist;       /* calls made up to the end of the history */
   vfs_t *killed;          /* image of everything written at the end of the faulted run */
+  vfs_t *powered;         /* C02 mode: power-loss image at the end of the run (directory ops up to the last fsync, files at synced length) */
   kobs_t after_close;     /* observation after clean close + reopen */
   int reopen_rc;
 } frun_t;
@@ -112,7 +115,7 @@ check_reads(khist_t *h, frun_t *r, int opidx) {
     ldb_slice_t key = ldb_slice(kv_keys[k], kv_keylen[k]), val;
     int fired0 = vfs_cur->fault.fired;
     int rc = ldb_get(h->db, &key, &val, NULL);
-    int faulted = vfs_cur->fault.fired != fired0 && prop_mode != 1;
+    int faulted = vfs_cur->fault.fired != fired0 && !SHORT_MODE;
     have[k] = 1;
     obs[k] = 0;
     if (rc == LDB_OK) {
@@ -210,7 +213,7 @@ fault_body(void *arg) {
       fprintf(stderr, "op %d kind %c status %d db=%p fired=%d ncalls=%ld\n", i, r->h->ops[i].kind, rc, (void *)h.db, vfs_cur->fault.fired, vfs_cur->ncalls);
     if (rc != LDB_OK)
       n_err_status_ops++;
-    if (rc != LDB_OK && prop_mode == 1 && !r->learn) {
+    if (rc != LDB_OK && SHORT_MODE && !r->learn) {
       char m[200];
       snprintf(m, sizeof(m), "op %d returns status %d (%s) although no system call failed (one transfer was short)", i, rc, ldb_strerror(rc));
       fail(r, "error-on-legal-short-transfer", m);
@@ -245,6 +248,11 @@ fault_body(void *arg) {
       snprintf(m, sizeof(m), "at the end of the faulted run: %s", e);
       fail(r, "reachable-file-removed", m);
     }
+    /* the live descriptor is itself a file the current state is reached through */
+    if (!lay_current_names_existing_manifest(DB, e, sizeof(e))) {
+      snprintf(m, sizeof(m), "at the end of the faulted run the live MANIFEST has been removed: %s", e);
+      fail(r, "reachable-file-removed", m);
+    }
   }
   if (prop_mode == 17) {
     char e[300], m[400];
@@ -260,6 +268,8 @@ fault_body(void *arg) {
     int J = vfs_jlen(vfs_cur);
     vfs_lens_at(vfs_cur, J, W, S);
     r->killed = vfs_image(vfs_cur, J, vfs_ndirops_before(vfs_cur, J), W);
+    if (prop_mode == 2)
+      r->powered = vfs_image(vfs_cur, J, vfs_watermark(vfs_cur, J), S);
     free(W); free(S);
   }
   /* ending (a): clean close (still under the fault if it is persistent), then the fault clears */
@@ -276,6 +286,10 @@ fault_body(void *arg) {
     char e[300], m[400];
     if (lay_manifest_tables_exist(DB, e, sizeof(e)) == 0) {
       snprintf(m, sizeof(m), "after the clean close that ends the faulted run: %s", e);
+      fail(r, "reachable-file-removed", m);
+    }
+    if (!lay_current_names_existing_manifest(DB, e, sizeof(e))) {
+      snprintf(m, sizeof(m), "after the clean close that ends the faulted run the live MANIFEST has been removed: %s", e);
       fail(r, "reachable-file-removed", m);
     }
   }
@@ -318,7 +332,7 @@ judge(frun_t *r, const kobs_t *o, int open_rc, const char *ending) {
   for (i = 0; i < r->nacks; i++) {
     if (r->acks[i].empty) continue;
     all |= 1u << i;
-    if (r->acks[i].status == LDB_OK)
+    if (r->acks[i].status == LDB_OK && (!judge_sync_only || r->acks[i].sync))
       ok_mask |= 1u << i;
   }
   if (o->bad) {
@@ -365,9 +379,32 @@ run_fault(const hist_t *h, const fplan_t *p, int paranoid, frun_t *r) {
     fail(r, st == SCH_DEADLOCK ? "hang-after-fault" : "stuck-after-fault", m);
     vfs_free(v);
     if (r->killed) { vfs_free(r->killed); r->killed = NULL; }
+    if (r->powered) { vfs_free(r->powered); r->powered = NULL; }
     return 0;
   }
   if (r->fired) n_fired++; else n_notfired++;
+  if (prop_mode == 2) {
+    /* C02 under legal short transfers: power fails at the end of the run; every batch acknowledged WITH SYNC is there */
+    if (r->killed) { vfs_free(r->killed); r->killed = NULL; }
+    if (r->powered) {
+      rjob_t j;
+      kobs_t o;
+      memset(&o, 0, sizeof(o));
+      j.r = r; j.o = &o; j.rc = 0;
+      vfs_use(r->powered);
+      judge_sync_only = 1;
+      st = sch_run(reopen_body, &j, &sc);
+      if (st != SCH_OK)
+        fail(r, "hang-after-fault", "reopen of the power-loss image did not complete");
+      else
+        judge(r, &o, j.rc, "power loss at the end of the run (files at synced length) + reopen");
+      judge_sync_only = 0;
+      vfs_free(r->powered);
+      r->powered = NULL;
+    }
+    vfs_free(v);
+    return 1;
+  }
   judge(r, &r->after_close, r->reopen_rc, "clean close + reopen");
   if (r->killed) {
     rjob_t j;
@@ -484,6 +521,7 @@ explore_history(const hist_t *h) {
   if (sch_run(fault_body, &r, &sc) != SCH_OK || !r.ok)
     vh_die("fault-free run did not complete or failed its own oracle: %s", r.err);
   if (r.killed) { vfs_free(r.killed); r.killed = NULL; }
+  if (r.powered) { vfs_free(r.powered); r.powered = NULL; }
   free(calllog);
   ncalllog = r.ncalls_hist;
   calllog = malloc(sizeof(vcall_t) * (size_t)(ncalllog + 1));
@@ -503,7 +541,7 @@ explore_history(const hist_t *h) {
      * (lseek is half of the pread emulation of this build): metadata probes are not fault sites */
     if (kind == C_STAT || kind == C_ACCESS || kind == C_FSTAT || kind == C_FCNTL || kind == C_OPENDIR || kind == C_RMDIR)
       continue;
-    if (prop_mode == 1) {
+    if (SHORT_MODE) {
       long shorts[3], ns = 0, q;
       if ((kind != C_READ && kind != C_WRITE) || calllog[k].len < 2)
         continue;
@@ -651,7 +689,7 @@ main(int argc, char **argv) {
   cfgs = drv_opt("cfgs", "B1");
   {
     const char *pm = drv_opt("prop", "C12");
-    prop_mode = !strcmp(pm, "C09") ? 9 : !strcmp(pm, "C01") ? 1 : !strcmp(pm, "C04") ? 4 : !strcmp(pm, "C13") ? 13 : !strcmp(pm, "C17") ? 17 : 12;
+    prop_mode = !strcmp(pm, "C09") ? 9 : !strcmp(pm, "C01") ? 1 : !strcmp(pm, "C02") ? 2 : !strcmp(pm, "C04") ? 4 : !strcmp(pm, "C13") ? 13 : !strcmp(pm, "C17") ? 17 : 12;
   }
   add_op("P0.1");
   add_op("P1.1!");
@@ -696,6 +734,7 @@ main(int argc, char **argv) {
     sc.step_max = 2000000;
     if (sch_run(fault_body, &lr, &sc) != SCH_OK) vh_die("fault-free run did not complete");
     if (lr.killed) vfs_free(lr.killed);
+    if (lr.powered) vfs_free(lr.powered);
     ncalllog = lr.ncalls_hist;
     calllog = malloc(sizeof(vcall_t) * (size_t)(ncalllog + 1));
     memcpy(calllog, v->calls, sizeof(vcall_t) * (size_t)ncalllog);
